@@ -56,7 +56,13 @@ func Normalize(v fitmodel.Val, fi *fitmodel.FieldInfo) fitmodel.Val {
 // FileExpect builds the expectation for decoding the encoding of in: same
 // slots, same messages, values normalised, component expansion applied to
 // messages in container slots (in slot order = stream order of the encoder).
-func FileExpect(in *fit.File) *Expected {
+func FileExpect(in *fit.File) *Expected { return fileExpect(in, false, true) }
+
+// FileSame is the expectation "the same content" (values cut to the profile's
+// fixed lengths, no component re-derivation): relation of C07.
+func FileSame(in *fit.File) *Expected { return fileExpect(in, true, false) }
+
+func fileExpect(in *fit.File, trunc, expand bool) *Expected {
 	ft := in.Type()
 	e := &Expected{FileType: ft, Slots: map[string][]*fitmodel.IMsg{}, Exp: map[*fitmodel.IMsg]fitmodel.Expansion{}, Labels: map[string]int{}}
 	e.SlotList = append(prof.FileSlots(), prof.Slots(ft)...)
@@ -74,10 +80,13 @@ func FileExpect(in *fit.File) *Expected {
 			}
 			for i, fi := range m.Info.BySIdx {
 				if fi != nil {
+					if trunc {
+						m.Vals[i] = TruncateToProfile(m.Vals[i], fi)
+					}
 					m.Vals[i] = Normalize(m.Vals[i], fi)
 				}
 			}
-			if !s.InFile && fitmodel.ExpandsComponents(m.Global) {
+			if expand && !s.InFile && fitmodel.ExpandsComponents(m.Global) {
 				ex := fitmodel.Expand(m, acc)
 				e.Exp[m] = ex
 				for _, l := range ex.Labels {
@@ -149,4 +158,30 @@ func AccFinding(field string, open func(string) bool) string {
 		return "K1"
 	}
 	return ""
+}
+
+// TruncateToProfile cuts a value to what the profile's fixed lengths can
+// carry: strings to the longest prefix of whole characters that fits in
+// length-1 bytes, arrays to the profile length.
+func TruncateToProfile(v fitmodel.Val, fi *fitmodel.FieldInfo) fitmodel.Val {
+	switch {
+	case v.K == 's' && len(v.S) > fi.Length-1:
+		n := fi.Length - 1
+		if n < 0 {
+			n = 0
+		}
+		for n > 0 && v.S[n]&0xC0 == 0x80 {
+			n--
+		}
+		return fitmodel.S(v.S[:n])
+	case v.K == 'a' && len(v.Elems) > fi.Length:
+		return fitmodel.Arr(v.Elems[:fi.Length])
+	}
+	return v
+}
+
+// FileExpectTrunc is FileExpect with values first cut to the profile's fixed
+// lengths (the re-encoding relation of C07).
+func FileExpectTrunc(in *fit.File) *Expected {
+	return fileExpect(in, true, true)
 }
